@@ -69,7 +69,7 @@ def product_sites(run, f, order=None, floor=None, rule='R7'):
     sites = pair.find_sites(f)
     for s in sites:
         pair.check_site(run, s, order=order, rule=rule)
-    if floor is not None and len(sites) < floor and not run.findings:
+    if floor is not None and len(sites) < floor and not run._new_findings():
         raise AnalysisError('%s::%s: %d Pauli product site(s) recognised, %d confirmed by hand' % (
             f.rel, f.qual, len(sites), floor))
     return sites
